@@ -282,49 +282,68 @@ theorem host_reads (o : Oracles) (n : Str) (np : NetlocParts) (h0 h1 : Str)
     (he : encodeHost o h0 false = .ok h1) :
     ∃ rh, rh ≠ [] ∧ Reads (rebracket (mem 91 (rpartition 64 n).2.2) h1) rh := by
   obtain ⟨hne, h64, hB, hnB⟩ := StrTotal.splitNetloc_host_facts o n np h0 hn hh
-  -- the IPv6 case: bracketed canonical text, zone kept
-  have key : ∀ h8, parseIP (partition 37 h0).1 = some (.v6 h8) →
-      h1 = [91] ++ (ipv6ToStr h8 ++ zonePart h0) ++ [93] →
+  -- the IPv6 case: bracketed canonical text, zone kept; made from `t`, the host or (fix 3fbf5b4) its IDNA answer
+  have keyT : ∀ (t : Str) h8, (∀ c, (c = 58 ∨ c = 64 ∨ c = 93) → c ∈ t → c ∈ h0) →
+      parseIP (partition 37 t).1 = some (.v6 h8) →
+      h1 = [91] ++ (ipv6ToStr h8 ++ zonePart t) ++ [93] →
       ∃ rh, rh ≠ [] ∧ Reads (rebracket (mem 91 (rpartition 64 n).2.2) h1) rh := by
-    intro h8 hv6 hr
-    obtain ⟨hc, hc0, hsub⟩ := StrTotal.v6_body_facts h0 h8 hv6
+    intro t h8 ht hv6 hr
+    obtain ⟨hc, hc0, hsub⟩ := StrTotal.v6_body_facts t h8 hv6
+    have hc0' : 58 ∈ h0 := ht 58 (by simp) hc0
     have hBt : mem 91 (rpartition 64 n).2.2 = true := by
       cases hb : mem 91 (rpartition 64 n).2.2 with
       | true => rfl
-      | false => exact absurd hc0 (hnB hb).1
+      | false => exact absurd hc0' (hnB hb).1
     have hm : mem 91 h1 = true := mem_iff.mpr (by rw [hr]; simp)
     have : rebracket (mem 91 (rpartition 64 n).2.2) h1 = h1 := by simp [rebracket, hm]
     rw [this, hr]
-    refine ⟨ipv6ToStr h8 ++ zonePart h0, ?_, reads_bracketed _ (fun hm => h64 (hsub 64 (by simp) hm))
-      (fun hm => hB hBt (hsub 93 (by simp) hm))⟩
+    refine ⟨ipv6ToStr h8 ++ zonePart t, ?_, reads_bracketed _ (fun hm => h64 (ht 64 (by simp) (hsub 64 (by simp) hm)))
+      (fun hm => hB hBt (ht 93 (by simp) (hsub 93 (by simp) hm)))⟩
     intro hnil; rw [hnil] at hc; cases hc
-  rcases StrTotal.encodeHost_false_cases o h0 h1 he with ⟨h8, hv6, hr⟩ | hrest
-  · exact key h8 hv6 hr
-  · rcases hg with ⟨h91, hidna⟩ | ⟨h8, hv6⟩
+  have key : ∀ h8, parseIP (partition 37 h0).1 = some (.v6 h8) →
+      h1 = [91] ++ (ipv6ToStr h8 ++ zonePart h0) ++ [93] →
+      ∃ rh, rh ≠ [] ∧ Reads (rebracket (mem 91 (rpartition 64 n).2.2) h1) rh :=
+    fun h8 hv6 hr => keyT h0 h8 (fun _ _ hm => hm) hv6 hr
+  -- every other answer: non-empty, no new delimiter
+  have main : 91 ∉ h0 → (∀ c, StrTotal.Delim c → c ∈ h1 → c ∈ h0) → h1 ≠ [] →
+      ∃ rh, rh ≠ [] ∧ Reads (rebracket (mem 91 (rpartition 64 n).2.2) h1) rh := by
+    intro h91 hd hne1
+    have h64' : 64 ∉ h1 := fun hm => h64 (hd 64 (by simp [StrTotal.Delim]) hm)
+    have h91' : 91 ∉ h1 := fun hm => h91 (hd 91 (by simp [StrTotal.Delim]) hm)
+    have hm : mem 91 h1 = false := mem_false_iff.mpr h91'
+    cases hb : mem 91 (rpartition 64 n).2.2 with
+    | true =>
+      have h93' : 93 ∉ h1 := fun hm => hB hb (hd 93 (by simp [StrTotal.Delim]) hm)
+      have : rebracket true h1 = [91] ++ h1 ++ [93] := by simp [rebracket, hm]
+      rw [this]
+      exact ⟨h1, hne1, reads_bracketed h1 h64' h93'⟩
+    | false =>
+      have h58' : 58 ∉ h1 := fun hm => (hnB hb).1 (hd 58 (by simp [StrTotal.Delim]) hm)
+      have : rebracket false h1 = h1 := by simp [rebracket]
+      rw [this]
+      exact ⟨h1, hne1, reads_plain h1 h58' h64' h91'⟩
+  rcases hg with ⟨h91, hidna⟩ | ⟨h8, hv6⟩
+  · rcases StrTotal.encodeHost_false_cases o h0 h1 he with ⟨h8, hv6, hr⟩ | ⟨hna, a, hi, _, hA⟩ | hrest
+    · exact key h8 hv6 hr
+    · obtain ⟨hane, hida⟩ := hidna hna a hi
+      rcases hA with ⟨h8, hv6, hr⟩ | hA
+      · exact keyT a h8 (fun c hc => hida c (by omega)) hv6 hr
+      · refine main h91 (fun c hc hm => hida c hc
+          (StrTotal.encodeHostA_false_char a h1 c (by unfold StrTotal.Delim at hc; omega) hA hm)) ?_
+        rcases hA with h | ⟨_, h⟩
+        · rw [h]; exact hane
+        · rw [h]; exact lower_ne_nil hane
     · have hd := StrTotal.encodeHost_false_delims o h0 h1 (fun ha r hr => (hidna ha r hr).2) hrest
-      have h64' : 64 ∉ h1 := fun hm => h64 (hd 64 (by simp [StrTotal.Delim]) hm)
-      have h91' : 91 ∉ h1 := fun hm => h91 (hd 91 (by simp [StrTotal.Delim]) hm)
       have hne1 : h1 ≠ [] := by
         rcases hrest with h | ⟨_, h⟩ | ⟨ha, h⟩
         · rw [h]; exact hne
         · rw [h]; exact lower_ne_nil hne
         · exact (hidna ha h1 h).1
-      have hm : mem 91 h1 = false := mem_false_iff.mpr h91'
-      cases hb : mem 91 (rpartition 64 n).2.2 with
-      | true =>
-        have h93' : 93 ∉ h1 := fun hm => hB hb (hd 93 (by simp [StrTotal.Delim]) hm)
-        have : rebracket true h1 = [91] ++ h1 ++ [93] := by simp [rebracket, hm]
-        rw [this]
-        exact ⟨h1, hne1, reads_bracketed h1 h64' h93'⟩
-      | false =>
-        have h58' : 58 ∉ h1 := fun hm => (hnB hb).1 (hd 58 (by simp [StrTotal.Delim]) hm)
-        have : rebracket false h1 = h1 := by simp [rebracket]
-        rw [this]
-        exact ⟨h1, hne1, reads_plain h1 h58' h64' h91'⟩
-    · obtain ⟨h4, h6⟩ := parseIP_v6 hv6
-      obtain ⟨_, _, hr⟩ := C16_ipv6_bracketed o h0 false h8 h1 h4 h6 he
-      apply key h8 hv6
-      rw [hr]; unfold zonePart; simp
+      exact main h91 hd hne1
+  · obtain ⟨h4, h6⟩ := parseIP_v6 hv6
+    obtain ⟨_, _, hr⟩ := C16_ipv6_bracketed o h0 false h8 h1 h4 h6 he
+    apply key h8 hv6
+    rw [hr]; unfold zonePart; simp
 
 /-- "no host" is written as "" or, if the host part of the input was "[]", as "[]" -/
 theorem nil_reads (b : Bool) : Reads (StrTotal.rebracket b []) [] := by
